@@ -2593,6 +2593,9 @@ func getVarDependencies(nod *node, sc *scope) (deps []*node) {
 		if n.anc.kind == selectorExpr && childPos(n) == 1 {
 			return false
 		}
+		if n.ident == "_" {
+			return false
+		}
 		sym, _, ok := sc.lookup(n.ident)
 		if !ok {
 			return false
